@@ -307,6 +307,10 @@ def request_line(u: U):
             self.parts = [SText.fresh(nm) for nm in ("method", "target", "version")[:k]]
             for q in self.parts[:2] if k == 3 else self.parts:
                 u.c.add(z3.InRe(q.t, nosp))
+            for q in self.parts:
+                # text decoded with errors="surrogateescape": non-UTF-8 wire bytes become lone surrogates, which
+                # cannot be encoded again (ghost flag; encode()/decode() yield fresh, unflagged texts)
+                q.may_have_surrogates = True
 
         def split(self, sep=None, maxsplit=-1):
             split_calls.append((sep, maxsplit))
@@ -368,6 +372,13 @@ def request_line(u: U):
         u.check("C10.escape.parse_message", isinstance(out.exc, E.HttpProcessingError),
                 f"only HTTP protocol errors (-> 400) may escape parse_message, got {type(out.exc).__name__}",
                 known=[("F10a", isinstance(out.exc, ValueError))])
+        if isinstance(out.exc, E.HttpProcessingError):
+            # (.args may keep the raw text; only .message is rendered into the response.  repr() - '{line!r}' -
+            # escapes lone surrogates, so texts that went through it are fine)
+            msgs = [out.exc.message]
+            u.check("C10.error_message_encodable", not any(getattr(x, "may_have_surrogates", False) for x in msgs),
+                    "the message of a protocol error never is raw surrogateescape-decoded wire text: the server copies it "
+                    "into the 400 response body (UTF-8), where a lone surrogate would raise inside the connection task")
         return
     u.cover("C01.request_line.accepted")
     m = out.value
